@@ -4,6 +4,9 @@ evidence; never counted as proved."""
 from bounded import driver, validators as VAL
 from pyvc.run import Job
 
+# the default patch vocabulary of bounded/driver.py plus a patch that calls the function it is inserted into and returns
+WITH_CALLFRET = ["plain", "jmpL2", "ret", "callg", "jcc", "lab", "lab0", "jmplab", "samehead", "samehead2", "selfloop", "twocalls", "callfret"]
+
 BOUND = ("x86-64 ELF module of 4 code blocks (target block kinds plain/jmp/ret/call/jcc) with and without function information; every "
          "single insert/replace/delete of the target block at instruction boundaries with the patch vocabulary of bounded/scen.py, whole-block "
          "deletion with retarget_to_proxy, and pairs of compatible modifications (all pairs in thorough, a seed-chosen slice of 40 per shape in quick)")
@@ -15,7 +18,7 @@ SPEC = {
                                                  "C02/no-dangling-referent", "C02/retarget_to_proxy-makes-labels-external", "C02/label-survives"], space=dict(bare=(False, True))),
     "C03": dict(vals=[VAL.c03_cfg], clauses=["C03/falls-through-to-the-physically-next-block", "C03/no-fallthrough-after-ret-or-jmp",
                                               "C03/branch-edge-leads-to-its-target-label", "C03/no-control-transfer-buried-mid-block",
-                                              "C03/returns-lead-to-the-return-sites-of-the-callers", "C03/no-edge-to-a-removed-block"], space=dict(callee2=(False, True), gaps=(False, True), ftflags=(False, True))),
+                                              "C03/returns-lead-to-the-return-sites-of-the-callers", "C03/no-edge-to-a-removed-block"], space=dict(callee2=(False, True), gaps=(False, True), ftflags=(False, True), patches=WITH_CALLFRET)),
     "C04": dict(vals=[VAL.c04_annotations], clauses=["C04/annotations-travel-with-their-byte", "C04/symbolic-expressions-travel-with-their-byte",
                                                       "C04/patch-expression-at-its-offset-with-module-symbol", "C04/no-annotation-on-removed-nodes",
                                                       "C04/nothing-points-outside-its-element", "C04/no-duplicate-symbols"],
@@ -23,7 +26,7 @@ SPEC = {
     "C05": dict(vals=[VAL.c05_closed], clauses=["C05/cfg-endpoints-in-module", "C05/symbol-referents-in-module", "C05/aux-data-nodes-in-module",
                                                  "C05/blocks-inside-their-interval", "C05/every-block-has-an-address",
                                                  "C05/zero-sized-blocks-only-in-documented-cases", "C05/protobuf-round-trip-unchanged", "C05/serialisable"],
-                space=dict(anns=("none", "block"), bare=(False, True))),
+                space=dict(anns=("none", "block"), bare=(False, True), patches=WITH_CALLFRET)),
     "C06": dict(vals=[VAL.c06_functions], clauses=["C06/surviving-instruction-keeps-its-function", "C06/inserted-code-belongs-to-the-function-of-its-block",
                                                     "C06/entries-follow-the-code", "C06/function-without-blocks-disappears", "C06/data-never-belongs-to-a-function"],
                 space=dict(funcs=(True,), patches=["plain", "jmpL2", "ret", "callg", "jcc", "lab", "lab0", "jmplab", "embdata", "twocalls"])),
